@@ -291,6 +291,13 @@ def cmp(op, a, b):
                 c = -c
         pos = {t: k for t, k in d.items() if k > 0}
         negs = {t: -k for t, k in d.items() if k < 0}
+        # integer tightening of unit offsets (bin ids, offsets and lengths are integers):
+        #   a < b + 1  ==  a <= b        a <= b - 1  ==  a < b
+        if pos and negs:
+            if op == '<' and c == -1:
+                op, c = '<=', 0
+            elif op == '<=' and c == 1:
+                op, c = '<', 0
         if not pos:
             # constant on the left when the left side has no terms:  c < x
             return ('cmp', op, C(c), _from_lin(0, negs))
